@@ -1757,7 +1757,7 @@ class FuncFind(ValueFunc):
         key = args.getFunc("key") if args.hasArg("key") else None
         if obj.isString():
             part = args.getString("part").value
-            start = args.getInt("start", 0).value
+            start = max(args.getInt("start", 0).value, 0)
             return ValueInt(obj.value.find(part, start))
         elif obj.isList():
             env = environment
@@ -1819,6 +1819,8 @@ class FuncFindLast(ValueFunc):
             s = obj.value
             part = args.getString("part").value
             start = args.getInt("start", len(s) - 1).value
+            if start < 0 and args.hasArg("start"):
+                return ValueInt(-1)     # no position before the beginning
             return ValueInt(obj.value.rfind(part, 0, start + len(part)))
         elif obj.isList():
             env = environment
